@@ -274,6 +274,29 @@ def step (st : St) (ts : List String) : St × String :=
       | some gs => ({ st with graphs := gs }, "ok")
       | none => (st, "bad-op")
     | none => (st, "bad-op")
+  | ["srcaddedge", g, id, s, t] =>
+    match id.toNat?, s.toNat?, t.toNat? with
+    | some id, some s, some t =>
+      match Driver.C18.updGraph st.graphs g (fun gr => { gr with edges := gr.edges ++ [⟨id, s, t, "R", "{}"⟩] }) with
+      | some gs => ({ st with graphs := gs }, "ok")
+      | none => (st, "bad-op")
+    | _, _, _ => (st, "bad-op")
+  | ["srcdelnode", g, id] =>
+    match id.toNat?, st.graphs.find? (·.name == g) with
+    | some id, some gr =>
+      if gr.nodes.any (·.id == id) then
+        let firstIdx := (gr.nodes.map (·.id)).idxOf id
+        ({ st with graphs := st.graphs.map (fun x => if x.name == g then { x with nodes := x.nodes.eraseIdx firstIdx } else x) }, "ok")
+      else (st, "none")
+    | _, _ => (st, "bad-op")
+  | ["srcdeledge", g, id] =>
+    match id.toNat?, st.graphs.find? (·.name == g) with
+    | some id, some gr =>
+      if gr.edges.any (·.id == id) then
+        let firstIdx := (gr.edges.map (·.id)).idxOf id
+        ({ st with graphs := st.graphs.map (fun x => if x.name == g then { x with edges := x.edges.eraseIdx firstIdx } else x) }, "ok")
+      else (st, "none")
+    | _, _ => (st, "bad-op")
   | ["final"] =>
     let ref := applyOps (dumpOps db ident) []
     (st, if sameFS st.fs ref then "same" else "differ")
